@@ -722,6 +722,26 @@ def explore(ctx):
     except Exception as e:  # noqa: BLE001
         cres = []
         ctx.notes.append(f'caller stage failed: {str(e)[:300]}')
+    # the catalog loader drives the same kernels for the halo subsamples, with convert_units on and off: positions and
+    # Lagrangian positions are in units of the header's BoxSize either way
+    try:
+        import random as _random
+        from harness import c01, catalog_synth as cs
+        r2 = _random.Random(ctx.seed)
+        cat = cs.random_catalog(r2, nslab=2, max_halos=5)
+        zl = [c01.make_load(cat, opt, cl, 'AB', 'dir', None, None, units=u)
+              for opt, cl, u in (('pvp', False, False), ('rvshort_pidlagr', True, False), ('pvp', True, True))]
+        zres = c01.run_loads(ctx, zl, workers=2, tag='c04cat')
+        for ld, rr in zip(zl, zres):
+            bad = c01.judge(ld, rr)[0]
+            if bad and 'aux:catalog-loader' not in seen:
+                seen.add('aux:catalog-loader')
+                counterexamples.append({
+                    'key': 'aux:catalog-loader', 'what': 'CompaSOHaloCatalog(convert_units=%s) does not decode the halo subsamples as documented: %s'
+                    % (ld['units'], '; '.join(bad)[:300]), 'input': {'catalog_load': ld}, 'impl_result': str(rr)[:400],
+                    'expected': 'positions / Lagrangian positions of the tagged particles in units of BoxSize', 'predicate': RV_PRED})
+    except Exception as e:  # noqa: BLE001
+        ctx.notes.append(f'catalog-loader stage failed: {str(e)[:300]}')
     for r in cres:
         if (r['class'] != 'ok' or not all(r['equal'].values())) and 'aux:read_asdf-arguments' not in seen:
             seen.add('aux:read_asdf-arguments')
@@ -852,6 +872,11 @@ def search(ctx, broken):
 
 def replay(ctx, rec):
     inp = rec['input']
+    if 'catalog_load' in inp:
+        from harness import c01
+        rr = c01.run_loads(ctx, [inp['catalog_load']], workers=1, tag='c04catr')[0]
+        bad = c01.judge(inp['catalog_load'], rr)[0]
+        return bool(bad), {'problems': bad[:3]}
     if inp.get('caller'):
         rs = ctx.run_impl('harness.c04', 'impl_callers', {'seed': int(rec.get('seed', 0))})
         bad = [r for r in rs if r['class'] != 'ok' or not all(r['equal'].values())]
